@@ -7,7 +7,8 @@ From V Require Import Base.Util C11.Model C11.Spec.
 
 Inductive result :=
 | ROk (out : list item)
-| RErr (e : xerr) (diag : option pos)   (* diag = PositionedError::from(e).position() *)
+| RErr (e : xerr) (diag : option pos) (info : list (pos * str)) (msg : str)
+    (* PositionedError::from(e): position(), additional_info, Display of the inner error *)
 | RPanic.                      (* a panic or parse failure inside the implementation *)
 
 Inductive case := Case (files : list (list item)) (builtins : list item) (r : result).
@@ -15,7 +16,10 @@ Inductive case := Case (files : list (list item)) (builtins : list item) (r : re
 Definition result_eqb (a : xerr + list item) (b : result) : bool :=
   match a, b with
   | inr x, ROk y => list_eqb item_eqb x y
-  | inl e, RErr e' dg => xerr_eqb e e' && option_eqb pos_eqb (Some (diag_pos e)) dg
+  | inl e, RErr e' dg info msg =>
+      xerr_eqb e e' && option_eqb pos_eqb (Some (diag_pos e)) dg
+      && list_eqb (fun a b => pos_eqb (fst a) (fst b) && str_eqb (snd a) (snd b)) (additional_info e) info
+      && str_eqb (error_message e) msg
   | _, _ => false
   end.
 
@@ -28,7 +32,7 @@ Definition agree (c : case) : bool :=
 Definition holds (c : case) : bool :=
   match c with
   | Case files builtins (ROk out) => spec_ok_b (merge_documents files ++ builtins) (OOk out)
-  | Case files builtins (RErr e dg) =>
+  | Case files builtins (RErr e dg _ _) =>
       spec_ok_b (merge_documents files ++ builtins) (OErr e)
       && match dg, e with
          | Some p, DupOriginal _ _ p1 p2 => pos_eqb p p1 || pos_eqb p p2
